@@ -349,7 +349,7 @@ func shapeByName(n string) (shape, bool) {
 }
 
 func mutByName(n string) (mutation, bool) {
-	for _, m := range mutations() {
+	for _, m := range allMutations() {
 		if m.name == n {
 			return m, true
 		}
